@@ -41,6 +41,14 @@ def generate(seed, stratum, tier):
       clients[c].append(['sleep', 0.001])
     for _ in range(rng.randrange(3, 16)):
       clients[rng.randrange(nclients)].append([rng.choice(['post_fifo', 'post_lifo']), rng.randrange(nobj), rng.choice(['SW', 'SW', 'SA', 'SB'])])
+    if rng.random() < 0.25:
+      # the fabric is stopped while an object with live output is in the middle of a (slow) step, and another object is
+      # started afterwards (which restarts the fabric and the writer): the lines queued in between arrive late, but they arrive
+      objs.append(dict(aw.default_objects(nobj + 1)[-1], two_states=True, live_spy=True, live_trace=rng.random() < 0.5))
+      objs[0]['live_spy'] = True
+      objs[0].setdefault('react', {})['SB'] = [{'op': 'sleep', 'd': 0.05, 'id': 40, 'max': 1}]
+      clients[0] += [['post_fifo', 0, 'SB'], ['sleep', rng.choice([0.01, 0.02])], ['fabric_stop'], ['sleep', 0.1], ['start', nobj], ['sleep', 0.05],
+                     ['post_fifo', nobj, 'SW'], ['sleep', 0.05]]
     kind = rng.choice(['fine', 'coarse', 'coarse', 'frozen', 'jump'])
     clock = {'kind': kind, 'q_us': rng.choice([1000, 15600, 1000000])}
     if kind == 'jump':
